@@ -24,6 +24,7 @@ CONTROLS = [
     'U1|<verif_controls::FieldHandleObserver<O, SD> as Observer>::next',
     'U2|<verif_controls::OneSidedUnsub<A, B> as Subscription>::unsubscribe',
     'U6|<verif_controls::EarlyReleaseSlot<O> as Observer>::complete',
+    'U3|<verif_controls::LazyMulti as Subscription>::unsubscribe',
 ]
 
 
@@ -33,6 +34,8 @@ def check(cx):
         res.append(Finding(ID, 'U4', f.key, f.ok, f.msg, f.loc, f.witness))
     for f in c17.k2(cx):
         res.append(Finding(ID, 'U5', f.key, f.ok, f.msg, f.loc, f.witness))
+    for f in c17.k4(cx):
+        res.append(Finding(ID, 'U3', f.key, f.ok, f.msg, f.loc, f.witness))
     return res
 
 
